@@ -1178,11 +1178,20 @@ func (d *indexData) newMatchTree(q query.Q, opt matchTreeOpt) (matchTree, error)
 		}
 
 		var regexpMT *regexpMatchTree
-		visitMatchTree(subMT, func(mt matchTree) {
-			if t, ok := mt.(*regexpMatchTree); ok {
-				regexpMT = t
-			}
-		})
+		if re, ok := s.Expr.(*query.Regexp); ok {
+			// Do not pick a regexpMatchTree out of subMT: the regexp may have
+			// been distilled into an equivalent tree of substring matches
+			// (foo|bar), or subMT may contain regexpMatchTrees for short
+			// literals that only match a part of the regexp (foo.*ab). subMT
+			// still selects the candidate documents.
+			regexpMT = newRegexpMatchTree(re)
+		} else {
+			visitMatchTree(subMT, func(mt matchTree) {
+				if t, ok := mt.(*regexpMatchTree); ok {
+					regexpMT = t
+				}
+			})
+		}
 		if regexpMT == nil {
 			return nil, fmt.Errorf("found %T inside query.Symbol", subMT)
 		}
